@@ -236,6 +236,41 @@ def run(out, drv, info):
             out.violation('chunker:nondeterministic', 'same pieces, same parameters, different chunks on a second run',
                           {'kind': 'rerun', 'min': mn, 'max': mx, 'key': key, 'pieces': [p.hex() for p in ps],
                            'a': [len(c) for c in ch], 'b': [len(c) for c in ch3]})
+    # ---- statelessness ("never by earlier calls"): ONE adapter object is reused for interleaved and abandoned calls
+    from replicat.utils import adapters as _ad
+    r3 = rng_for(out.seed, 'C10-reuse')
+    shared = {}
+    for idx in range(0, len(cases), 4 if quick else 3):
+        mn, mx, key, ps = cases[idx]
+        if isinstance(impl[idx], Exception) or not valid(mn, mx):
+            continue
+        j = r3.randrange(len(cases))
+        mn2, mx2, key2, ps2 = cases[j]
+        if isinstance(impl[j], Exception) or (mn2, mx2) != (mn, mx):
+            # same parameters are needed to share one object: re-chunk case idx's parameters over case j's pieces
+            mn2, mx2 = mn, mx
+        ch = shared.setdefault((mn, mx), _ad.gclmulchunker(min_length=mn, max_length=mx))
+        fresh_a = [len(c) for c in impl[idx]]
+        fresh_b = [len(bytes(c)) for c in _ad.gclmulchunker(min_length=mn, max_length=mx)(iter(ps2), params=bytes.fromhex(key2))]
+        g1 = ch(iter(ps), params=bytes.fromhex(key))
+        got_a = []
+        for _ in range(r3.randrange(0, 3)):
+            c = next(g1, None)
+            if c is None:
+                break
+            got_a.append(len(c))
+        got_b = [len(bytes(c)) for c in ch(iter(ps2), params=bytes.fromhex(key2))]      # a second call on the same object, first one suspended
+        abandon = r3.random() < 0.4
+        if not abandon:
+            got_a += [len(c) for c in g1]
+        else:
+            g1.close()                                                                      # abandoned call
+        out.evaluations += 1
+        out.count('reuse:' + ('abandoned' if abandon else 'interleaved'))
+        if got_b != fresh_b or (not abandon and got_a != fresh_a):
+            out.violation('chunker:depends-on-earlier-calls', 'a chunker object reused for an interleaved / abandoned call produces different chunks than a fresh one',
+                          {'kind': 'reuse', 'min': mn, 'max': mx, 'key_a': key, 'pieces_a': [p.hex() for p in ps], 'key_b': key2, 'pieces_b': [p.hex() for p in ps2],
+                           'fresh_b': fresh_b, 'reused_b': got_b, 'fresh_a': fresh_a, 'reused_a': got_a, 'abandoned': abandon})
     # ---- memory safety: ASan on recorded next_cut calls with exact-size heap buffers; model's verdict compared per call
     if asan_calls:
         calls = [(mn, mx, key, fin, buf) for mn, mx, key, fin, buf, _ in asan_calls]
@@ -291,5 +326,15 @@ def replay(path, drv):
         bad = direct_oracle(c['min'], c['max'], b''.join(ps), ps, ch)
         print('chunks', [len(x) for x in ch], 'oracle:', bad)
         return 1 if bad else 0
+    if rp.get('kind') == 'reuse':
+        from replicat.utils import adapters as _ad
+        ch = _ad.gclmulchunker(min_length=rp['min'], max_length=rp['max'])
+        pa = [bytes.fromhex(x) for x in rp['pieces_a']]
+        pb = [bytes.fromhex(x) for x in rp['pieces_b']]
+        g1 = ch(iter(pa), params=bytes.fromhex(rp['key_a']))
+        head = [len(next(g1))] if rp['reused_a'] else []
+        got_b = [len(bytes(c)) for c in ch(iter(pb), params=bytes.fromhex(rp['key_b']))]
+        print('reused object:', got_b[:12], 'fresh object:', rp['fresh_b'][:12])
+        return 1 if got_b != rp['fresh_b'] else 0
     print('replay kind not supported:', rp.get('kind'))
     return 2
